@@ -141,7 +141,11 @@ func runC12(c *Ctx) {
 		o = docOpts{exhaustiveLen: 3, corpus: true, random: 100000, mutants: 100000, blockLines: 3, randLines: 100000}
 	}
 	items := collectDocs(c, o, func(add func(string, []byte)) {
-		for _, t := range []string{"```\nabc", "    code", "> ```\n> x", "`foo\nbar`\n", "> [a](/url \"line1\n> line2\")", "[a](/u 't\n  u')", "- `a\n  b`", "~~~\nx", "\tcode", "a\\\nb", "&amp; \\* [l]: /u", "[foo\nbar]: /u\n\n[foo bar]", "<a\nb>", "|a|\n|-|\n|`x\\|y`|", "# h {#i}", "[^1]\n\n[^1]: n", "t\n: d", "\"q\" -- ..."} {
+		for _, t := range []string{"```\nabc", "    code", "> ```\n> x", "`foo\nbar`\n", "> [a](/url \"line1\n> line2\")", "[a](/u 't\n  u')", "- `a\n  b`", "~~~\nx", "\tcode", "a\\\nb", "&amp; \\* [l]: /u", "[foo\nbar]: /u\n\n[foo bar]", "<a\nb>", "|a|\n|-|\n|`x\\|y`|", "# h {#i}", "[^1]\n\n[^1]: n", "t\n: d", "\"q\" -- ...",
+			// attribute blocks: values that are slices of the source next to values that have to be
+			// formatted (numbers, booleans), on names that pass the filters
+			"# Title {.intro tabindex=2}", "# T {#i data-n=1.5 data-b=true}", "t {lang=en hidden=true}\n===", "## T {title=x data-z=-3e2 .c}", "# T {data-a=b data-c=7 data-d=e data-f=false}", "# T {tabindex=2 .intro}", "# T {.a .b data-n=12345678901234567890}",
+			"```go {.c data-n=1}\nx\n```", "> # q {#a data-k=0.5}"} {
 			add("targeted", []byte(t))
 		}
 	})
